@@ -173,6 +173,21 @@ class Pipe:
     def deliver_all(self):
         return self.deliver(len(self.inflight))
 
+    def deliver_partial(self, k):
+        """Deliver only the first k bytes of the oldest in-flight item (a fragment: short read for the
+        receiver); the rest stays in flight as the new head.  Returns the number of bytes delivered."""
+        if not self.inflight:
+            return 0
+        head = self.inflight[0]
+        if head is EOF_MARK:
+            return 0
+        if k >= len(head):
+            self.deliver(1)
+            return len(head)
+        self.dst.rbuf += head[:k]
+        self.inflight[0] = head[k:]
+        return k
+
 
 def pair(name_a="c", name_b="s"):
     a, b = VSock(name_a), VSock(name_b)
